@@ -1,6 +1,7 @@
 //! vcore: shared machinery of the rust-simplicity runtime monitors.
 #![allow(clippy::all)]
 
+pub mod alloc;
 pub mod bits;
 pub mod rng;
 pub mod runner;
@@ -17,6 +18,7 @@ pub mod prog;
 pub mod enc;
 
 pub mod c01;
+pub mod c02;
 pub mod c04;
 pub mod c05;
 pub mod c09;
